@@ -319,7 +319,7 @@ func (g *gen) randomDef() *Def {
 	for ti := 0; ti < nTypes; ti++ {
 		kind := g.nextKind()
 		t := fmt.Sprintf("E%d%c", n, 'a'+ti)
-		d.Types = append(d.Types, TypeD{t, kind})
+		d.Types = append(d.Types, TypeD{Name: t, Kind: kind})
 		nm := &namer{rng: rng, prefix: fmt.Sprintf("C%d%c", n, 'a'+ti), fold: d.Opts == "c", used: map[string]bool{}}
 		perType = append(perType, g.randomConsts(t, kind, nm))
 	}
@@ -340,7 +340,7 @@ func (g *gen) systematic() []*Def {
 		lo, hi := kindRange(kind)
 		t := fmt.Sprintf("E%da", n)
 		pre := fmt.Sprintf("C%da", n)
-		d := &Def{Opts: "-", Types: []TypeD{{t, kind}}}
+		d := &Def{Opts: "-", Types: []TypeD{{Name: t, Kind: kind}}}
 		// source order is a rotation of the alphabetical order
 		order := make([]int, len(p))
 		for i := range order {
@@ -367,7 +367,7 @@ func (g *gen) systematic() []*Def {
 				t := fmt.Sprintf("E%da", n)
 				pre := fmt.Sprintf("C%da", n)
 				lo, hi := kindRange(kind)
-				d := &Def{Opts: "-", Types: []TypeD{{t, kind}}}
+				d := &Def{Opts: "-", Types: []TypeD{{Name: t, Kind: kind}}}
 				if (n % 2) == 0 {
 					d.Opts = "c"
 				}
@@ -402,7 +402,7 @@ func (g *gen) systematic() []*Def {
 		n := g.nextSerial()
 		ta, tb := fmt.Sprintf("E%da", n), fmt.Sprintf("E%db", n)
 		pa, pb := fmt.Sprintf("C%da", n), fmt.Sprintf("C%db", n)
-		d := &Def{Opts: "-", Types: []TypeD{{ta, "int"}, {tb, "u64"}}}
+		d := &Def{Opts: "-", Types: []TypeD{{Name: ta, Kind: "int"}, {Name: tb, Kind: "u64"}}}
 		d.Items = []Item{
 			{What: "const", T: ta, Name: pa + "V0", Val: bi(0), Form: "i"},
 			{What: "const", T: ta, Name: pa + "V1", Val: bi(1), Form: "r"},
@@ -610,7 +610,7 @@ func (g *gen) outOfDomain() {
 	{
 		n := g.nextSerial()
 		t, pre := fmt.Sprintf("E%da", n), fmt.Sprintf("C%da", n)
-		defs = append(defs, &Def{Opts: "c", Types: []TypeD{{t, "int"}}, Items: []Item{
+		defs = append(defs, &Def{Opts: "c", Types: []TypeD{{Name: t, Kind: "int"}}, Items: []Item{
 			{What: "const", T: t, Name: pre + "Foo", Val: bi(0), Form: "i"},
 			{What: "const", T: t, Name: pre + "FOO", Val: bi(1), Form: "r"},
 		}})
@@ -619,7 +619,7 @@ func (g *gen) outOfDomain() {
 	{
 		n := g.nextSerial()
 		t, pre := fmt.Sprintf("E%da", n), fmt.Sprintf("C%da", n)
-		defs = append(defs, &Def{Opts: "-", Types: []TypeD{{t, "int"}, {t + "Empty", "u8"}}, Items: []Item{
+		defs = append(defs, &Def{Opts: "-", Types: []TypeD{{Name: t, Kind: "int"}, {Name: t + "Empty", Kind: "u8"}}, Items: []Item{
 			{What: "const", T: t, Name: pre + "A", Val: bi(0), Form: "i"},
 		}})
 	}
